@@ -407,3 +407,13 @@ Example C11_e2e_tabledef_not_quiet :
   item_okb e2e_dd false (true, e2e_json4 11 false ex_data, []) = false /\
   item_okb e2e_dd true (true, e2e_json4 11 false ex_data, []) = true.
 Proof. exact e2e_tabledef_not_quiet. Qed.
+
+(* the stub template decoder (C11_e2e_scan_exact_stub): three messages of 031031
+   templates, editions 3, 2 and 4, satisfy item_okb stub_dd false and scan exactly *)
+From PBK Require Import StreamFrameDamageStream.
+Example C11_e2e_stub_nonvacuous :
+  forallb (item_okb stub_dd false) (map fst (filter undamaged stub_dmg_items)) = true /\
+  outcome_eqb (frame_generate stub_dd e2e_view e2e_tdp e2e_filt false false false
+                 (e2e_sep0 ++ assemble (stream_of (map fst (filter undamaged stub_dmg_items)))))
+              (map item_bytes (map fst (filter undamaged stub_dmg_items)), None) = true.
+Proof. split; apply e2e_stub_nonvacuous. Qed.
